@@ -73,6 +73,11 @@ def plan(tier, seed):
         if gi % 4 == 1:
             for omfloat in (True, False):
                 shards.append(("pipe_cubic", tier, gi, 2 if tier == "quick" else 3, omfloat))
+        if gi % 8 in (1, 6):
+            shards.append(("pipe_legacy", tier, gi, 2, gi % 8 == 1))
+        if gi % 8 in (2, 7):
+            for nt in (4, 16) if tier == "quick" else (2, 3, 4, 7, 16):
+                shards.append(("pipe_frames%d" % nt, tier, gi, 3, gi % 8 == 2))
     shards.append(("callers",))
     k = seed % len(shards)
     return shards[k:] + shards[:k]
@@ -128,12 +133,15 @@ def perturbed(grains):
     return out
 
 
-def write_inputs(wd, pars, peaks, start, gm, P, with_translation=True):
+def write_inputs(wd, pars, peaks, start, gm, P, with_translation=True, legacy=False, by_omega=False):
     p = P.parameters(**pars)
     p.saveparameters(os.path.join(wd, "g.par"))
     with open(os.path.join(wd, "p.flt"), "w") as fh:
-        fh.write("#  sc  fc  omega  Number_of_pixels  avg_intensity  sum_intensity\n")
+        # legacy: the column names older peak files use for the same two detector coordinates
+        fh.write("#  %s  omega  Number_of_pixels  avg_intensity  sum_intensity\n" % ("xc  yc" if legacy else "sc  fc"))
         order = (np.arange(len(peaks)) * 7919) % len(peaks) if np.gcd(7919, len(peaks)) == 1 else np.arange(len(peaks))
+        if by_omega:
+            order = np.argsort(peaks[:, 2], kind="stable")          # frame by frame, as a peak search writes them
         for k in order:
             fh.write("%.4f  %.4f  %.4f  %.0f  %.4f  %.4f\n" % (peaks[k, 0], peaks[k, 1], peaks[k, 2], 10, 100.0, 1000.0))
     gl = [gm.grain(u, translation=(t if with_translation else None)) for u, t in start]
@@ -157,7 +165,8 @@ def _makemap_repeated(opts, k):
     o.scandata[opts.fltfile].writefile(opts.fltfile + ".new")
 
 
-def run_case(sh, mods, pars, ng, omfloat, case, passes=3, with_translation=True, cubic=False, repeat=0, unlisted=0, cellscale=1.0, wrap360=False):
+def run_case(sh, mods, pars, ng, omfloat, case, passes=3, with_translation=True, cubic=False, repeat=0, unlisted=0, cellscale=1.0, wrap360=False,
+             legacy=False, frame_threads=0):
     tr, gm, P, cf_mod, makemap_mod = mods
     wd = os.path.join(WORK, "c09_%d" % os.getpid())
     shutil.rmtree(wd, ignore_errors=True)
@@ -181,7 +190,13 @@ def run_case(sh, mods, pars, ng, omfloat, case, passes=3, with_translation=True,
             truth = [(u, t * 0.3) for u, t in truth]
             peaks = simulate(tr, pars, truth)
             start = [(u, np.zeros(3)) for u, t in perturbed(truth)]
-        order = write_inputs(wd, pars, peaks, start, gm, P, with_translation)
+        if frame_threads:
+            # every spot listed twice, the table in omega order: consecutive rows with exactly the same omega, as 2-D peak tables have;
+            # the compiled loops run with `frame_threads` threads
+            peaks = np.repeat(peaks, 2, axis=0)
+            from ImageD11 import cImageD11 as cI_
+            cI_.cimaged11_omp_set_num_threads(int(frame_threads))
+        order = write_inputs(wd, pars, peaks, start, gm, P, with_translation, legacy=legacy, by_omega=bool(frame_threads))
         peaks = peaks[order]
         ubifile = os.path.join(wd, "start.ubi")
         cwd = os.getcwd()
@@ -217,6 +232,8 @@ def run_case(sh, mods, pars, ng, omfloat, case, passes=3, with_translation=True,
                             break
         finally:
             os.chdir(cwd)
+            if frame_threads:
+                cI_.cimaged11_omp_set_num_threads(1)
         # ---- read back what was saved
         final = gm.read_grain_file(ubifile)
         with contextlib.redirect_stdout(io.StringIO()):
@@ -306,10 +323,12 @@ def run_shard(desc):
     case = {"tier": tier, "geometry": gi, "ngrains": ng, "omega_float": omfloat, "seed": seed_of(), "start_has_translations": kind != "pipe_nostart",
             "cubic_constraint": kind == "pipe_cubic", "refinepositions_calls_on_one_object": int(kind[11:]) if kind.startswith("pipe_repeat") else 0,
             "grains_not_in_the_grain_file": 1 if kind == "pipe_missing" else 0, "cell_scale": 30.0 if kind == "pipe_bigcell" else 1.0,
-            "omega_written_0_to_360": kind == "pipe_wrap360",
+            "omega_written_0_to_360": kind == "pipe_wrap360", "legacy_column_names": kind == "pipe_legacy",
+            "frame_pairs_threads": int(kind[11:]) if kind.startswith("pipe_frames") else 0,
             "pars": {k: v for k, v in pars.items() if not k.startswith("cell")}}
     info = run_case(sh, _mods(), pars, ng, omfloat, case, with_translation=(kind != "pipe_nostart"), cubic=(kind == "pipe_cubic"),
-                    repeat=case["refinepositions_calls_on_one_object"], unlisted=case["grains_not_in_the_grain_file"], cellscale=case["cell_scale"], wrap360=case["omega_written_0_to_360"])
+                    repeat=case["refinepositions_calls_on_one_object"], unlisted=case["grains_not_in_the_grain_file"], cellscale=case["cell_scale"], wrap360=case["omega_written_0_to_360"],
+                    legacy=case["legacy_column_names"], frame_threads=case["frame_pairs_threads"])
     sh.sample(dict(case, **{k: v for k, v in (info or {}).items()}), limit=1)
     return sh
 
@@ -323,5 +342,6 @@ def replay(case):
     pars = geometries(case["tier"])[case["geometry"]]
     run_case(sh, _mods(), pars, case["ngrains"], case["omega_float"], case, with_translation=case.get("start_has_translations", True),
              cubic=case.get("cubic_constraint", False), repeat=case.get("refinepositions_calls_on_one_object", 0),
-             unlisted=case.get("grains_not_in_the_grain_file", 0), cellscale=case.get("cell_scale", 1.0), wrap360=case.get("omega_written_0_to_360", False))
+             unlisted=case.get("grains_not_in_the_grain_file", 0), cellscale=case.get("cell_scale", 1.0), wrap360=case.get("omega_written_0_to_360", False),
+             legacy=case.get("legacy_column_names", False), frame_threads=case.get("frame_pairs_threads", 0))
     return (not sh.violations), {"violations": sh.violations[:3]}
